@@ -89,7 +89,7 @@ def units(tier, seed):
             for obj in ("sphere_in", "lin_corner"):
                 for sk in ("simple", "nbc"):
                     for mx in (False, True):
-                        descs.append(dict(engines=list(eng), gens=2, box=box, obj=obj, maximize=mx, Mh=3, seed=s, sprout={"kind": sk, "L": 2}))
+                        descs.append(dict(engines=list(eng), gens=2, box=box, obj=obj, maximize=mx, Mh=3, seed=s, sprout={"kind": sk, "L": 2}, hib=(len(descs) % 3 == 0)))
     # a sampling spread that is large compared with the box (the default sample_std_dev = 1.0 on a box of
     # width 0.3 is such a case): the child's initial population needs many rejection rounds; and the
     # lower-case spelling of the local method's name
@@ -104,6 +104,9 @@ def units(tier, seed):
         for mx in (False, True):
             kk += 1
             descs.append(dict(engines=list(eng), gens=3, box=("B_asym", "B_dec")[kk % 2], obj="infhole", maximize=mx, Mh=4, seed=s + kk % 3, sprout={"kind": ("simple", "nbc")[kk % 2], "L": 2}))
+    for k, eng in enumerate(shapes_h3_cover() if tier == "quick" else []):
+        descs.append(dict(engines=list(eng), gens=1 + k % 2, box=("B_asym", "B_dec", "B_3d")[k % 3], obj=("lin_corner", "sphere_in")[k % 2], maximize=bool(k % 2), Mh=4, seed=s,
+                          sprout={"kind": ("simple", "nbc", "nbclocal")[k % 3] if eng[2] == "LOC" else ("simple", "nbc")[k % 2], "L": 2}, hib=bool(k % 4 == 1)))
     if tier == "thorough":
         for k, eng in enumerate(shapes_h3_all()):
             descs.append(dict(engines=list(eng), gens=1 + k % 2, box=("B_asym", "B_dec", "B_3d")[k % 3], obj=("lin_corner", "sphere_in")[k % 2],
